@@ -186,7 +186,12 @@ def generate_registry():
                                           'size_p': 'int', 'size_q': 'int'},
                                 'invariant': helper + facts('p', 'q', 'n', 'd') +
                                              ['ival(e) == old(e)', '%s.g_pos >= old(%s.g_pos)' % (TPR, TPR), sys_untouched(TPR)]}},
-                     modifies=[TPR + '.g_pos'], result=OKEY, options={'int_lemmas': []}))
+                     # the one-line IntegerNative wrappers are executed (their real bodies), so that the closures evaluated inside the
+                     # `filtered` clause yield plain arithmetic facts; sqrt / lcm / inverse / size_in_bits / << keep their proved contracts
+                     inline=[IN + '.' + m for m in ('__init__', '__int__', '__gt__', '__lt__', '__le__', '__ge__', '__eq__', '__ne__', '__sub__',
+                                                    '__add__', '__mul__', '__abs__', 'gcd')],
+                     # (feas_ms: budget of one path-pruning query; a time-out keeps the path, so this only trades run time)
+                     modifies=[TPR + '.g_pos'], result=OKEY, options={'feas_ms': 50}))
     return reg
 
 
